@@ -82,6 +82,10 @@ Definition block_clauses (st : store) (q : query) (ign : list utxo_ref) (s : lis
 Definition unresolved_justified (st : store) (q : query) (ign : list utxo_ref) : bool :=
   let cs := filter (fun u => cand_b q ign u = true) st in
   let t := target_of q in
+  (* the property speaks of the candidates within the selection window: when more UTxOs match
+     than the window holds (the ignore set is applied after the window), which of them are
+     looked at is the hash set's choice and the converse clause does not apply *)
+  if (window <? length (filter (fun u => cand_b q [] u = true) st))%nat then true else
   if q_many q then
     match cs with [] => true | _ => negb (coversb (total cs) t) end
   else negb (existsb (fun u => coversb (u_assets u) t) cs).
